@@ -226,6 +226,21 @@ CHECKS['C13'] = {
                  'balance-preservation invariants computed from the full ledger',
 }
 
+CHECKS['C14'] = {
+    'text': 'BALANCES [AT f] [FROM ...] [WHERE ...] and JOURNAL [regex] [AT f] [FROM ...] are executed by the real code on '
+            'ledgers whose posting selection bits are symbolic and whose amount patterns, accounts, regular expressions and '
+            'FROM forms are enumerated, and compared with (i) a direct computation from the entries written from the property '
+            '(per-account inventory sums ordered by account type then name; the posting register with running balance) and '
+            '(ii) the SELECT expansion run by the real code. PRINT: for 10 filters over the fixture ledger (every directive '
+            'kind) plus high-precision amounts, exactly the matching directives in ledger order, in syntax that the Beancount '
+            'loader reads back to equal directives; the entry filter with symbolic year / month.',
+    'design_ref': 'DESIGN.md section 5, C14',
+    'note': _COMMON_NOTE + ' The Beancount printer and its C parser are outside the solver: PRINT losslessness is decided '
+            'on the concrete ledgers only and is claimed as that.',
+    'technique': 'symbolic execution (CrossHair/z3) of the BALANCES / JOURNAL expansions and execute_print filter against '
+                 'direct computations; print / load round trip on concrete ledgers',
+}
+
 NOT_APPLICABLE = {
     pid: 'check under construction in this session; not claimed yet'
     for pid in ['C06', 'C11', 'C12', 'C13', 'C14', 'C16', 'C17', 'C18', 'C19', 'C20']
